@@ -23,6 +23,28 @@ def _fmt_ok(e):
     return z3.Or(isinst(e, "str"), T.forall([x], isinst(T.apply1(e, x), "str"), patterns=[T.apply1(e, x)]))
 
 
+JCLASS = z3.Function("json_class_of", Val, Val)
+
+
+@contract(f"{M}:_json_class", props=["C01"])
+class JsonClass:
+    """first of (bool, int, float, str, NoneType) in the MRO of the datum's class, else the class
+    itself: on the exact JSON classes it is the class (walk over __mro__: outside the subset)"""
+
+    assumed = True
+    raises: list = []
+
+    def requires(self, c):
+        return []
+
+    def modifies(self, c):
+        return []
+
+    def ensures(self, c):
+        d = c.data
+        return {"result": z3.And(c.result == JCLASS(d), z3.Implies(S.is_json_like(d), JCLASS(d) == cls(d)), T.hashable(c.result))}
+
+
 @contract(f"{M}:LiteralMethod.deserialize", props=["C01", "C02", "C03", "C14"])
 class LiteralDeserialize:
     kinds = {"self.value_map": "dict", "self.types": "tuple"}
@@ -46,10 +68,14 @@ class LiteralDeserialize:
         s, d = c.self, c.data
         vm, types, cf = c.attr0(s, "value_map"), c.attr0(s, "types"), c.attr0(s, "coercer")
         j = z3.Int("j")
-        in_types = z3.Exists([j], z3.And(j >= 0, j < c.llen0(types), c.lget0(types, j) == cls(d)))
+        in_types = z3.Exists([j], z3.And(j >= 0, j < c.llen0(types), c.lget0(types, j) == JCLASS(d)))
         strict = z3.And(T.hashable(d), c.dhas0(vm, d), in_types)
         out = {
-            "C01: without coercion, returns iff the datum is one of the literal values, of the same JSON class": z3.Implies(cf == T.None_, c.returned == strict),
+            "C01: without coercion, returns iff the datum is one of the literal values, of the same JSON class (bool is not a number)": z3.Implies(cf == T.None_, c.returned == strict),
+            "C14: a coerced value is accepted only if it is a literal of the class it was coerced to": z3.Implies(
+                z3.And(c.returned, z3.Not(strict)),
+                z3.Exists([j], z3.And(j >= 0, j < c.llen0(types), COERCE_OK(cf, c.lget0(types, j), d), c.dhas0(vm, COERCED(cf, c.lget0(types, j), d)), JCLASS(COERCED(cf, c.lget0(types, j), d)) == c.lget0(types, j))),
+            ),
             "C14: coercion only widens": z3.Implies(strict, c.returned),
         }
         if c.is_return:
